@@ -1,19 +1,9 @@
-/-! scratch: split_command_line as a table-driven machine (repaired: starts in `ws`) -/
+import PexpectModel.Generated.SplitTable
+/-! `utils.split_command_line` as the interpreter of the table that T-split extracts from the source
+    (`Generated/SplitTable.lean`), and the round-trip theorem over that table. -/
 namespace Split
 
-inductive Cls | bs | sq | dq | sp | other deriving DecidableEq, Repr
-inductive Q | basic | esc | sq | dq | ws deriving DecidableEq, Repr
-inductive ArgAct | keep | push | flush deriving DecidableEq, Repr  -- flush = arg_list.append(arg); arg=''
-
-/-- this table is what the translator generates from utils.py -/
-def tbl : Q → Cls → Q × ArgAct
-  | .basic, .bs => (.esc, .keep) | .basic, .sq => (.sq, .keep) | .basic, .dq => (.dq, .keep)
-  | .basic, .sp => (.ws, .flush) | .basic, .other => (.basic, .push)
-  | .ws, .bs => (.esc, .keep) | .ws, .sq => (.sq, .keep) | .ws, .dq => (.dq, .keep)
-  | .ws, .sp => (.ws, .keep) | .ws, .other => (.basic, .push)
-  | .esc, _ => (.basic, .push)
-  | .sq, .sq => (.basic, .keep) | .sq, _ => (.sq, .push)
-  | .dq, .dq => (.basic, .keep) | .dq, _ => (.dq, .push)
+open SplitGen
 
 variable {α : Type} (cls : α → Cls)
 
@@ -30,7 +20,7 @@ def step (m : M α) (c : α) : M α :=
 
 def finish (m : M α) : List (List α) := if m.arg ≠ [] then m.out ++ [m.arg] else m.out
 
-def split (s : List α) : List (List α) := finish (s.foldl (step cls) ⟨.ws, [], []⟩)
+def split (s : List α) : List (List α) := finish (s.foldl (step cls) ⟨SplitGen.initial, [], []⟩)
 
 /-- backslash-quote every character -/
 def quoteBs (bs : α) (a : List α) : List α := a.flatMap (fun c => [bs, c])
@@ -42,7 +32,7 @@ theorem run_quoteBs (bs : α) (hbs : cls bs = .bs) (a : List α) (m : M α)
   | nil => exact absurd rfl ha
   | cons c t ih =>
     have h1 : step cls (step cls m bs) c = { q := .basic, arg := m.arg ++ [c], out := m.out } := by
-      rcases hq with h | h <;> simp [step, hbs, h, tbl]
+      rcases hq with h | h <;> cases hcl : cls c <;> simp [step, hbs, h, tbl, hcl]
     simp only [quoteBs, List.flatMap_cons, List.cons_append, List.nil_append, List.foldl_cons]
     rw [h1]
     by_cases ht : t = []
@@ -181,6 +171,8 @@ theorem split_roundtrip (hB : cls cB = .bs) (hS : cls cS = .sq) (hD : cls cD = .
     (hok : ∀ x ∈ init ++ [last], x.OK cls) (hsep : ∀ x ∈ init, x.sep ≠ []) :
     split cls (lead ++ render cB cS cD (init ++ [last])) = (init ++ [last]).map (·.arg) := by
   unfold split
+  have hinit : SplitGen.initial = .ws := by decide
+  rw [hinit]
   rw [List.foldl_append, run_ws_initial cls lead hlead _ rfl]
   have hr : render cB cS cD (init ++ [last]) = render cB cS cD init ++ (quote cB cS cD last.style last.arg ++ last.sep) := by
     simp [render]
